@@ -54,7 +54,8 @@ type wsOp struct {
 	Len  int
 	Seed uint32
 	Via  int // 0 Message.Send, 1 custom Codec.Send, 2 Conn.Write
-	Recv int // how the peer receives it: 0 custom codec (type visible), 1 Message into *[]byte, 2 Message into *string
+	Recv int // how the peer receives it: 0 custom codec (type visible), 1 Message into *[]byte, 2 Message into *string, 3 Conn.Read in chunks
+	Chunk int // buffer size for Recv == 3
 }
 
 type wsByz struct {
@@ -111,7 +112,8 @@ func wsDrawPlan(rt *rapid.T, byz bool) *wsPlan {
 					}
 				}
 				op.Via = c.Intn(3)
-				op.Recv = c.Intn(3)
+				op.Recv = vs.Pick(c, 0, 1, 2, 0, 3)
+				op.Chunk = vs.Pick(c, 512, 1, 3, 7, 64, 1000, 4096, 65536)
 			}
 			p.Ops[d] = append(p.Ops[d], op)
 		}
@@ -134,6 +136,27 @@ func wsDrawPlan(rt *rapid.T, byz bool) *wsPlan {
 				if p.Max[d] < 1 {
 					p.Max[d] = 1
 				}
+			}
+		}
+	}
+	for d := 0; d < 2; d++ {
+		// Conn.Read has stream semantics (no message boundary, no size limit): only
+		// used for non-empty messages within the limit, where it must yield the bytes.
+		// Nor directly after a refused message: Codec.Receive documents that the *next
+		// Receive* discards the refused frame's payload; Read would return it.
+		prevRefused := false
+		for i := range p.Ops[d] {
+			op := &p.Ops[d][i]
+			if op.Ping {
+				continue
+			}
+			refused := p.Max[d] != 0 && op.Len > p.Max[d]
+			if op.Recv == 3 && (op.Len == 0 || refused || prevRefused) {
+				op.Recv = 0
+			}
+			prevRefused = refused
+			if op.Chunk < op.Len/1500 {
+				op.Chunk = op.Len/1500 + 1
 			}
 		}
 	}
@@ -476,7 +499,7 @@ var wsCodec = Codec{
 func wsRun(rt *rapid.T, t *testing.T) {
 	byz := vs.Config() == "byz"
 	for _, n := range []string{"probe.len_0", "probe.len_125", "probe.len_126", "probe.len_65535", "probe.len_65536", "probe.len_over_65536",
-		"probe.too_large_then_intact", "probe.limit_exact", "probe.ping_answered", "probe.split_inside_header", "probe.text", "probe.binary"} {
+		"probe.too_large_then_intact", "probe.limit_exact", "probe.ping_answered", "probe.split_inside_header", "probe.text", "probe.binary", "probe.conn_read_chunks"} {
 		vs.G.Add(n, 0)
 	}
 	if byz {
@@ -494,9 +517,9 @@ func wsRun(rt *rapid.T, t *testing.T) {
 			case op.Ping:
 				s += fmt.Sprintf(" ping(%d)", op.Len)
 			case op.Bin:
-				s += fmt.Sprintf(" bin(%d,v%d,r%d)", op.Len, op.Via, op.Recv)
+				s += fmt.Sprintf(" bin(%d,v%d,r%d/%d)", op.Len, op.Via, op.Recv, op.Chunk)
 			default:
-				s += fmt.Sprintf(" text(%d,v%d,r%d)", op.Len, op.Via, op.Recv)
+				s += fmt.Sprintf(" text(%d,v%d,r%d/%d)", op.Len, op.Via, op.Recv, op.Chunk)
 			}
 		}
 		tr.Ev("plan dir%d max=%d:%s", d, p.Max[d], s)
@@ -675,9 +698,11 @@ func wsRun(rt *rapid.T, t *testing.T) {
 					return
 				}
 				var recvAPI []int
+				var recvOps []wsOp
 				for _, op := range p.Ops[d] {
 					if !op.Ping {
 						recvAPI = append(recvAPI, op.Recv)
+						recvOps = append(recvOps, op)
 					}
 				}
 				for i := 0; ; i++ {
@@ -696,10 +721,21 @@ func wsRun(rt *rapid.T, t *testing.T) {
 						var b []byte
 						r.Err = Message.Receive(c, &b)
 						r.Type, r.Data = -1, b
-					default:
+					case 2:
 						var s string
 						r.Err = Message.Receive(c, &s)
 						r.Type, r.Data = -1, []byte(s)
+					default:
+						op := recvOps[i]
+						buf := make([]byte, op.Len)
+						got := 0
+						for got < op.Len && r.Err == nil {
+							var n int
+							n, r.Err = c.Read(buf[got:min(got+op.Chunk, op.Len)])
+							got += n
+						}
+						r.Type, r.Data = -1, buf[:got]
+						vs.G.Inc("probe.conn_read_chunks")
 					}
 					if tearing {
 						return
